@@ -24,10 +24,26 @@ fn eval_histories(tape: &[u32], st: &mut Stats) -> CaseResult {
         max_vars: 5,
         weird_pct: 5,
     };
-    let case = gen_term_case(&mut t, &cfg);
-    let text: &str = &case.text;
+    // one case in eight: more than 16 distinct variables (beyond the inline capacity of the name list)
+    let many_vars = t.chance(12);
+    let case = if many_vars {
+        let table = gen_table(&mut t, &cfg.table);
+        let nv = 17 + t.choose(10);
+        let names: Vec<String> = (0..nv).map(|i| format!("w{:02}", (i * 7) % 31)).collect();
+        let bare_ok = names.iter().map(|n| bare_name_ok(n, &table)).collect();
+        let pool = VarPool { names, bare_ok };
+        let tree = gen_tree(&mut t, &table, pool.names.len(), &TreeCfg { max_operands: 90, lit_pct: 5, unary_pct: 5, ..TreeCfg::default() });
+        finish_case(&mut t, table, pool, tree, &cfg.render)
+    } else {
+        gen_term_case(&mut t, &cfg)
+    };
+    st.class_if(case.names.len() > 16, "more than 16 variables");
+    let text: &'static str = crate::hist::leak(case.text.clone());
     let n = case.names.len();
     let steps: Vec<usize> = (0..1 + t.choose(10)).map(|_| t.choose(9)).collect();
+    let final_kind = t.choose(4);
+    let un_name: Option<&'static str> = case.table.iter().find(|o| o.unary).map(|o| o.name);
+    let bin_name: &'static str = case.table.iter().find(|o| o.bin.is_some()).map(|o| o.name).unwrap_or("+");
     let describe = |h: &Vec<String>| {
         let mut c = case.describe();
         c["history"] = json!(h);
@@ -47,7 +63,7 @@ fn eval_histories(tape: &[u32], st: &mut Stats) -> CaseResult {
         let (f0, d0) = (f.clone(), d.clone());
         let v0 = ex_msg(f.eval(&case.vals))?;
         let dv0 = ex_msg(d.eval(&case.vals))?;
-        let mut hist = vec![];
+        let mut hist: Vec<String> = vec![];
         for s in &steps {
             let wrong: Vec<Term> = (0..n + 1).map(|i| Term::Atom(700 + i as u32)).collect();
             match s {
@@ -107,6 +123,49 @@ fn eval_histories(tape: &[u32], st: &mut Stats) -> CaseResult {
             if v != v0 || dv != dv0 {
                 return Ok(Err(fail("C20/eval-not-repeatable", format!("after {hist:?} evaluating `{text}` again gives {v:?} / {dv:?}, first time {v0:?} / {dv0:?}"), describe(&hist))));
             }
+        }
+        // an expression that has been evaluated is as good as a never-evaluated one: the used
+        // values themselves (moved, not cloned) are transformed and compared with the same
+        // transformation of a fresh parse
+        let vals_for = |names: &[String]| -> Vec<Term> {
+            names.iter().map(|nm| case.names.iter().position(|c| c == nm).map(|i| case.vals[i].clone_quiet()).unwrap_or(Term::Poison)).collect()
+        };
+        let fresh_d = ex_msg(D::parse(text))?;
+        let fresh_f = ex_msg(F::parse(text))?;
+        let first = case.names.first().cloned();
+        let what = ["subs(first variable -> 7)", "operate_unary", "flat<->deep conversion", "operate_binary with `3`"][final_kind];
+        hist.push(format!("consume the evaluated expressions: {what}"));
+        let transform_d = |x: D<'static>| -> Result<D<'static>, String> {
+            match final_kind {
+                0 => ex_msg(x.subs(&mut |nm: &str| if Some(nm) == first.as_deref() { D::parse("7").ok() } else { None })),
+                1 => match un_name {
+                    Some(u) => ex_msg(x.operate_unary(u)),
+                    None => Ok(x),
+                },
+                2 => ex_msg(ex_msg(F::from_deepex(x))?.to_deepex()),
+                _ => ex_msg(x.operate_binary(ex_msg(D::parse("3"))?, bin_name)),
+            }
+        };
+        let transform_f = |x: F| -> Result<F, String> {
+            match final_kind {
+                0 => ex_msg(x.subs(&mut |nm: &str| if Some(nm) == first.as_deref() { F::parse("7").ok() } else { None })),
+                1 => match un_name {
+                    Some(u) => ex_msg(x.operate_unary(u)),
+                    None => Ok(x),
+                },
+                2 => ex_msg(F::from_deepex(ex_msg(x.to_deepex())?)),
+                _ => ex_msg(x.operate_binary(ex_msg(F::parse("3"))?, bin_name)),
+            }
+        };
+        let (ud, fd) = (transform_d(d)?, transform_d(fresh_d)?);
+        let (uf, ff) = (transform_f(f)?, transform_f(fresh_f)?);
+        let (a, b) = (ex_msg(ud.eval(&vals_for(ud.var_names())))?, ex_msg(fd.eval(&vals_for(fd.var_names())))?);
+        if a != b || ud.var_names() != fd.var_names() || ud != fd {
+            return Ok(Err(fail("C20/used-differs-from-fresh", format!("after {hist:?} the deep expression of `{text}` gives {a:?} over {:?}, the same transformation of a fresh parse gives {b:?} over {:?}", ud.var_names(), fd.var_names()), describe(&hist))));
+        }
+        let (a, b) = (ex_msg(uf.eval(&vals_for(uf.var_names())))?, ex_msg(ff.eval(&vals_for(ff.var_names())))?);
+        if a != b || uf.var_names() != ff.var_names() || uf != ff {
+            return Ok(Err(fail("C20/used-differs-from-fresh", format!("after {hist:?} the flat expression of `{text}` gives {a:?} over {:?}, the same transformation of a fresh parse gives {b:?} over {:?}", uf.var_names(), ff.var_names()), describe(&hist))));
         }
         Ok(Ok(()))
     });
@@ -583,7 +642,7 @@ pub fn def() -> PropDef {
         subs: vec![
             SubCheck {
                 name: "eval_histories",
-                rule: "tape -> expression over the term algebra (up to 8/30/90 operands) x 1-10 steps (eval with right/wrong length, eval_relaxed, eval_vec/iter, unparse, listings, clone().to_deepex(), other values); after every step == pristine clone and eval repeatable; parse(t) == parse(t); non-trivial = >=3 steps; distinct by text+history",
+                rule: "tape -> expression over the term algebra (up to 8/30/90 operands) x 1-10 steps (eval with right/wrong length, eval_relaxed, eval_vec/iter, unparse, listings, clone().to_deepex(), other values); after every step == pristine clone and eval repeatable; parse(t) == parse(t) (one case in eight with 17-26 variables); finally the evaluated values themselves are consumed by subs / operate_unary / conversion / operate_binary and must equal the same transformation of a fresh parse; non-trivial = >=3 steps; distinct by text+history",
                 kind: Kind::Tape { len: 900, quick: 15_000, thorough: 800_000, f: eval_histories },
             },
             SubCheck {
